@@ -1,5 +1,5 @@
 #!/venv/bin/python
-"""Calibrate per-rule floors on the current (reference) tree: 60% of the decided count."""
+"""Calibrate per-rule floors on the current (reference) tree: 40% of the decided count (a rule must not pass vacuously; consolidating refactorings may halve instance counts)."""
 import json, os, re, subprocess
 HERE = os.path.dirname(os.path.dirname(os.path.abspath(__file__)))
 props = [c["property_id"] for c in json.load(open(os.path.join(HERE, "MANIFEST.json")))["checks"]]
@@ -9,6 +9,6 @@ for p in props:
                          env=dict(os.environ, VERIF_CALIBRATE="1", VERIF_NO_EVIDENCE="1")).stdout
     for m in re.finditer(r"^RULE (\S+)\s+obligations=(\d+) ok=(\d+) violations=(\d+)", out, re.M):
         decided = int(m.group(3)) + int(m.group(4))
-        floors[m.group(1)] = max(1, int(decided * 0.6))
+        floors[m.group(1)] = max(1, int(decided * 0.4))
 json.dump(floors, open(os.path.join(HERE, "floors.json"), "w"), indent=1, sort_keys=True)
 print(len(floors), "rules calibrated")
